@@ -78,4 +78,30 @@ LEVEL = {
         note="Trusted: Lean kernel; axioms ⊆ {propext, Classical.choice, Quot.sound}; model tied by differential testing (bit-identical); statistics of one fixed "
              "pseudo-random sequence are test-level by nature.",
     ),
+    "C06": dict(
+        text="Partial. Theorems: the cepstrum <-> MLSA-coefficient maps are mutually inverse for every alpha; with zero coefficients the Pade cascade is the "
+             "identity in every state; shifting c0 by delta shifts only b0 and scales the filter input by exp(delta). The analytic clause (0.01 neper against "
+             "sum c_m cos(m w~)) is a bound on the Pade(5) error of a concrete rational function and is decided on every run by the DFT of the implementation's "
+             "pulse response through the public Vocoder; the Lean vocoder model is bit-identical to the implementation on all executed runs.",
+        note="Trusted: Lean kernel; axioms ⊆ {propext, Classical.choice, Quot.sound}; spectral accuracy is test-level (no complex analysis / IEEE semantics in the theorems).",
+    ),
+    "C13": dict(
+        text="Partial. Theorems: repaired lsp2lpc ignores the gain element (the pinned code used it as a frequency: fix 3dba546); gc2gc with equal gamma truncates; "
+             "ignorm inverts gnorm; MGLSA is the stage-fold cascade; gamma = -1/stage. The magnitude formula K/|A|^s (0.001 neper) and decay are decided on every run "
+             "by DFT of the implementation's pulse response against A(z) built by polynomial multiplication; model bit-identical to the implementation.",
+        note="Trusted: as C06; lsp2lpc = (P+Q)/2 is not yet a theorem.",
+    ),
+    "C14": dict(
+        text="Theorems: the post-filter's coefficient law (orders >= 2 times 1+beta, order 1 unchanged, order 0 shifted by half the log energy ratio minus "
+             "beta*alpha^2*b2), its no-op cases, and freqt(alpha=0) = id for the repaired input order with the pinned order's reversal as a statement (defect "
+             "found by trying to state this lemma; fix 4304ae0). The 1 % energy clause concerns the true impulse response of the running filter and is decided "
+             "on every run from pulse responses with and without beta, together with the spectral form of the coefficient law.",
+        note="Trusted: as C06; energy preservation itself is test-level (576-tap estimate vs true response).",
+    ),
+    "C16": dict(
+        text="Theorems: a frame rendered at gain g is the gain-1 frame scaled sample by sample with identical vocoder state, for either filter family; by induction "
+             "the whole rendering scales by g; get_volume inverts set_volume given ln∘exp = id; dB add; set_volume touches no other setting. Tied to the code at "
+             "stage level (both families) and through Engine::synthesize at v dB vs 0 dB (1e-12 relative), with getter read-back.",
+        note="Trusted: Lean kernel; axioms ⊆ {propext, Classical.choice, Quot.sound}; exp/ln laws as hypotheses; f64 rounding of exp(v*DB) test-level.",
+    ),
 }
